@@ -49,7 +49,7 @@ func (c04) Rule() string {
 		"returns exactly log(reqCP.S, respCP.S] minus own rows, in order; push-only returns nothing and keeps S; checkpoints " +
 		"monotone per attachment, C'==request C, S'<=head; real time: A returned before B called => S'(A)<=S'(B) and A's rows " +
 		"precede B's rows. porcupine re-checks each parallel history against a sequential append-and-pull model. Non-trivial = " +
-		">=2 clients pushed and (par) >=1 pair of overlapping requests observed."
+		">=2 clients pushed and (par) >=1 pair of overlapping requests observed. Every eighth sync of the parallel family is sent twice (a retransmission racing its original; an event of its own; the model's append is idempotent per change id)."
 }
 func (c04) Assumptions() []string {
 	return []string{
